@@ -96,9 +96,42 @@ theorem traverseOption_failure (a : A) (fa : A → GoM (Try R)) (e : Err) (he : 
     TryM.traverseOption (some a) fa = (do (l.forM emit : GoM Unit); pure (.failure e)) := by
   simp [traverseOption_def, hfa, he]
 
+/-- GENERAL form (audit finding 14; the shape of `traverseOption_failure`): the succeeding function may LOG (`l`)
+    before it returns; the log is kept, once. -/
+theorem traverseOption_success_log (a : A) (fa : A → GoM (Try R)) (r : R) (l : List Event)
+    (hfa : fa a = (do (l.forM emit : GoM Unit); pure (.success r))) :
+    TryM.traverseOption (some a) fa = (do (l.forM emit : GoM Unit); pure (.success (some r))) := by
+  simp [traverseOption_def, hfa]
+
+/-- … and with an arbitrary effect `act` (other callbacks, any result type) in front, success and failure -/
+theorem traverseOption_success_eff {X : Type} (a : A) (fa : A → GoM (Try R)) (r : R) (act : GoM X)
+    (hfa : fa a = act >>= fun _ => pure (.success r)) :
+    TryM.traverseOption (some a) fa = act >>= fun _ => pure (.success (some r)) := by
+  simp [traverseOption_def, hfa]
+
+theorem traverseOption_failure_eff {X : Type} (a : A) (fa : A → GoM (Try R)) (e : Err) (he : e ≠ .nil) (act : GoM X)
+    (hfa : fa a = act >>= fun _ => pure (.failure e)) :
+    TryM.traverseOption (some a) fa = act >>= fun _ => pure (.failure e) := by
+  simp [traverseOption_def, hfa, he]
+
+/-- HYPOTHESIS-FREE: on `Some(a)` the function runs exactly once — with all its effects — and its outcome decides -/
+theorem traverseOption_some_eq (a : A) (fa : A → GoM (Try R)) :
+    TryM.traverseOption (some a) fa = (fa a >>= fun t =>
+      match t with
+      | .success r => pure (.success (some r))
+      | .failure .nil => throw "ErrNotInit"
+      | .failure e => pure (.failure e)) := by
+  simp only [traverseOption_def]
+  congr 1
+  funext t
+  cases t with
+  | success r => simp
+  | failure e => cases e <;> simp [Try.failedGet]
+
+/-- the effect-free instance of `traverseOption_success_eff` -/
 theorem traverseOption_success (a : A) (fa : A → GoM (Try R)) (r : R) (hfa : fa a = pure (.success r)) :
     TryM.traverseOption (some a) fa = pure (.success (some r)) := by
-  simp [traverseOption_def, hfa]
+  simpa using traverseOption_success_eff a fa r (pure ()) (by simpa using hfa)
 
 /-- FoldRight on an empty container: `f` is never invoked, the result is the (effect-free) zero -/
 theorem option_foldRight_none (zero : B) (f : A → EvalM.Eval B → GoM (EvalM.Eval B)) :
@@ -116,26 +149,84 @@ theorem try_foldRight_success (a : A) (bzero : B) (fab : A → EvalM.Eval B → 
 
 -- ------------------------------------------------------------------------------------------ statet.ApTry / ApOption
 
-/-- the function side fails: its error and ITS state come back; the argument is not looked at, nothing is applied -/
+/-- HYPOTHESIS-FREE (audit finding 14): `ApTry` for EVERY function side `st` (it may log, panic, fail, return the zero
+    value) and every argument: `st` runs first, once; then — no further effects except the applied function's —
+    the outcome decides, and the state is ALWAYS the one the function side left. -/
+theorem apTry_eq (st : StM.StT S (A → GoM B)) (a : Try A) (s : S) :
+    StM.apTry st a s = (st s >>= fun x =>
+      match x.1, a with
+      | .failure .nil, _ => throw "ErrNotInit"
+      | .failure e, _ => Pure.pure (.failure e, x.2)
+      | .success _, .failure .nil => throw "ErrNotInit"
+      | .success _, .failure e => Pure.pure (.failure e, x.2)
+      | .success f, .success v => do let b ← f v; Pure.pure (.success b, x.2)) := by
+  simp only [StM.apTry]
+  congr 1
+  funext ⟨af, ns⟩
+  cases af with
+  | success f =>
+    cases a with
+    | success v => simp [ap, map, lift, TryM.ops, TryM.flatMap]
+    | failure e => cases e <;> simp [ap, map, lift, TryM.ops, TryM.flatMap, Try.failedGet]
+  | failure e => cases e <;> simp [ap, TryM.ops, TryM.flatMap, Try.failedGet]
+
+/-- GENERAL form: the function side may have effects `act` before it fails; they are kept; its error and ITS state
+    come back; the argument is not looked at, nothing is applied -/
+theorem apTry_function_failure_eff {X : Type} (st : StM.StT S (A → GoM B)) (a : Try A) (s ns : S) (e : Err)
+    (he : e ≠ .nil) (act : GoM X) (h : st s = act >>= fun _ => Pure.pure (.failure e, ns)) :
+    StM.apTry st a s = act >>= fun _ => Pure.pure (.failure e, ns) := by
+  simp [StM.apTry, h, ap, TryM.ops, TryM.flatMap, he]
+
+/-- the function side fails: its error and ITS state come back; the argument is not looked at, nothing is applied
+    (the effect-free instance of `apTry_function_failure_eff`) -/
 theorem apTry_function_failure (st : StM.StT S (A → GoM B)) (a : Try A) (s ns : S) (e : Err) (he : e ≠ .nil)
     (h : st s = Pure.pure (.failure e, ns)) :
     StM.apTry st a s = Pure.pure (.failure e, ns) := by
-  simp [StM.apTry, h, ap, TryM.ops, TryM.flatMap, he]
+  simpa using apTry_function_failure_eff st a s ns e he (Pure.pure ()) (by simpa using h)
+
+/-- GENERAL form: the function side succeeds after effects `act`, the argument is a Failure: the effects, then
+    that error; the function is not applied -/
+theorem apTry_argument_failure_eff {X : Type} (st : StM.StT S (A → GoM B)) (s ns : S) (f : A → GoM B) (e : Err)
+    (he : e ≠ .nil) (act : GoM X) (h : st s = act >>= fun _ => Pure.pure (.success f, ns)) :
+    StM.apTry st (.failure e) s = act >>= fun _ => Pure.pure (.failure e, ns) := by
+  simp [StM.apTry, h, ap, map, lift, TryM.ops, TryM.flatMap, he]
 
 /-- the function side succeeds, the argument is a Failure: that error, the function is not applied -/
 theorem apTry_argument_failure (st : StM.StT S (A → GoM B)) (s ns : S) (f : A → GoM B) (e : Err) (he : e ≠ .nil)
     (h : st s = Pure.pure (.success f, ns)) :
     StM.apTry st (.failure e) s = Pure.pure (.failure e, ns) := by
-  simp [StM.apTry, h, ap, map, lift, TryM.ops, TryM.flatMap, he]
+  simpa using apTry_argument_failure_eff st s ns f e he (Pure.pure ()) (by simpa using h)
+
+theorem apOption_none_eff {X : Type} (st : StM.StT S (A → GoM B)) (s ns : S) (f : A → GoM B) (act : GoM X)
+    (h : st s = act >>= fun _ => Pure.pure (.success f, ns)) :
+    StM.apOption st none s = act >>= fun _ => Pure.pure (.failure .optionEmpty, ns) := by
+  simp [StM.apOption, h, ap, map, lift, TryM.ops, TryM.flatMap, TryM.fromOption]
 
 theorem apOption_none (st : StM.StT S (A → GoM B)) (s ns : S) (f : A → GoM B)
     (h : st s = Pure.pure (.success f, ns)) :
     StM.apOption st none s = Pure.pure (.failure .optionEmpty, ns) := by
-  simp [StM.apOption, h, ap, map, lift, TryM.ops, TryM.flatMap, TryM.fromOption]
+  simpa using apOption_none_eff st s ns f (Pure.pure ()) (by simpa using h)
+
+/-- excluded branches: a zero-value function side or argument makes `ApTry` panic (after the function side's effects) -/
+theorem apTry_zero {X : Type} (st : StM.StT S (A → GoM B)) (a : Try A) (s ns : S) (f : A → GoM B) (act : GoM X) :
+    (st s = (act >>= fun _ => Pure.pure (.failure .nil, ns)) →
+      StM.apTry st a s = act >>= fun _ => throw "ErrNotInit") ∧
+    (st s = (act >>= fun _ => Pure.pure (.success f, ns)) →
+      StM.apTry st (.failure .nil) s = act >>= fun _ => throw "ErrNotInit") := by
+  constructor <;> intro h <;> simp [StM.apTry, h, ap, map, lift, TryM.ops, TryM.flatMap]
 
 -- non-vacuity
 example : (Err.code 3) ≠ .nil := by decide
 example : ∃ (fa : Nat → GoM (Try Nat)) (l : List Event), fa 1 = (do (l.forM emit : GoM Unit); pure (.failure (.code 3))) :=
   ⟨fun _ => do (["k"].forM emit : GoM Unit); pure (.failure (.code 3)), ["k"], rfl⟩
+
+/-- a function side that LOGS, moves the state and fails: meets the `_eff` hypothesis, not the effect-free one -/
+example : ∃ (st : StM.StT Nat (Nat → GoM Nat)) (act : GoM Unit),
+    st 1 = (act >>= fun _ => Pure.pure (.failure (.code 2), 5)) ∧ st 1 ≠ Pure.pure (.failure (.code 2), 5) :=
+  ⟨fun _ => do emit "k"; Pure.pure (.failure (.code 2), 5), emit "k", rfl, by
+    intro h
+    have := congrArg (fun m => (GoM.exec m).2) h
+    revert this
+    decide⟩
 
 end FpVerif.Spec.C02
